@@ -225,14 +225,17 @@ package eval
 //@ spec func boolNode(b bool) ast.IsNode = ast.IsNode(mkstruct(ast.NodeValue, types.Value(types.Boolean(b))))
 //@ spec func rightOperand(env Env, c ast.IsNode) ast.IsNode = (hardErr(pE(env, c)) && !errIs(pE(env, c), errIgnore)) ? ast.IsNode(extError#0(pE(env, c))) : pN(env, c)
 //@ func isNonBoolValue
+//@   props C06
 //@   pure
 //@   results r
 //@   ensures r == isNonBoolLit(in)
 //@ func isTrue
+//@   props C06
 //@   pure
 //@   results r
 //@   ensures r == isBoolLit(in, true)
 //@ func isFalse
+//@   props C06
 //@   pure
 //@   results r
 //@   ensures r == isBoolLit(in, false)
@@ -281,6 +284,7 @@ package eval
 //@   results policy, keep
 //@   ensures scope_drop: !(partialPrincipalScope#1(env, env.Principal, p.Principal) && partialActionScope#1(env, env.Action, p.Action) && partialResourceScope#1(env, env.Resource, p.Resource)) ==> !keep
 //@   ensures drop_reason: (!keep && partialPrincipalScope#1(env, env.Principal, p.Principal) && partialActionScope#1(env, env.Action, p.Action) && partialResourceScope#1(env, env.Resource, p.Resource)) ==> (exists j int :: 0 <= j && j < len(p.Conditions) && (forall j2 int :: (0 <= j2 && j2 < j) ==> !stopsAt(env, p.Conditions[j2])) && (falsified(env, p.Conditions[j]) || ignoredUnder(env, p.Conditions[j], !p.Effect)))
+//@   ensures kept_nonnil: keep ==> policy != nil
 //@   ensures keep_reason: keep ==> (forall j int :: (0 <= j && j < len(p.Conditions) && (forall j2 int :: (0 <= j2 && j2 < j) ==> !stopsAt(env, p.Conditions[j2]))) ==> (!falsified(env, p.Conditions[j]) && !ignoredUnder(env, p.Conditions[j], !p.Effect)))
 //@   loop 1
 //@     invariant nostop: forall j int :: (0 <= j && j < $i) ==> !stopsAt(env, p.Conditions[j])
@@ -313,15 +317,18 @@ package eval
 //@ spec func isIgn(v types.Value) bool = (v is types.EntityUID) && v.(types.EntityUID).Type == types.EntityType("__cedar::ignore")
 //@ spec func scopeMatch(env Env, e types.EntityUID, in ast.IsScopeNode) bool = (in is ast.ScopeTypeAll) ? true : ((in is ast.ScopeTypeEq) ? e == in.(ast.ScopeTypeEq).Entity : ((in is ast.ScopeTypeIn) ? reach(env, e, in.(ast.ScopeTypeIn).Entity) : ((in is ast.ScopeTypeInSet) ? (exists j int :: 0 <= j && j < len(in.(ast.ScopeTypeInSet).Entities) && reach(env, e, in.(ast.ScopeTypeInSet).Entities[j])) : ((in is ast.ScopeTypeIs) ? e.Type == in.(ast.ScopeTypeIs).Type : ((in is ast.ScopeTypeIsIn) ? (e.Type == in.(ast.ScopeTypeIsIn).Type && reach(env, e, in.(ast.ScopeTypeIsIn).Entity)) : false)))))
 //@ func ToVariable
+//@   props C05 C06
 //@   pure
 //@   results key, ok
 //@   ensures ok == (ent.Type == types.EntityType("__cedar::variable"))
 //@   ensures ok ==> key == ent.ID
 //@ func IsVariable
+//@   props C06
 //@   pure
 //@   results r
 //@   ensures r == isVar(v)
 //@ func IsIgnore
+//@   props C06
 //@   pure
 //@   results r
 //@   ensures r == isIgn(v)
